@@ -14,10 +14,12 @@ PROPS = {
     'C03': dict(
         lean='CoapLite.Props.C03', domains=['PKT'], line_filter=r'PKT dec ', rule=PKT_RULE,
         explanation='decoder total (never panic), complete for RFC framing, sound, named rejection classes; oracle = independent three-valued reference parser',
+        trusted=['the low-level decoder model Model/CodecLow.lean (index cursor, partial reads, fixed-width additions) is a hand transcription of from_bytes; it is proved equal to the high-level model and run next to it on every PKT dec line up to 1500 bytes'],
     ),
     'C04': dict(
         lean='CoapLite.Props.C04', domains=['PKT', 'TBL'], line_filter=r'(PKT (enc|trace|apitrace) |TBL hdrser )', rule=PKT_RULE,
         explanation='exact wire length, limit iff, refusal of over-long option values',
+        trusted=['the low-level serialiser model Model/CodecEncLow.lean (u16/usize arithmetic that panics on overflow, Vec capacity, the unsafe copy blocks as one step that panics outside the allocation) is a hand transcription of to_bytes_internal; it is proved equal to the high-level model (hence never panics) and run next to it on every PKT enc line; the allocator and ptr::copy themselves are trusted'],
     ),
     'C06': dict(
         lean='CoapLite.Props.C06', domains=['UINT'],
@@ -84,6 +86,7 @@ PROPS = {
         lean='CoapLite.Props.C17', domains=['LF'], line_filter=r'LF (parse|cow|cowk) ',
         rule='link parser on every string of length <= 5 (7 thorough) over {< > ; , " \\ = space a e-acute} + 60000 random of length 6..8; both unquoting paths on every string of length <= 6 (7) over {" \\ a e-acute ;}; 20000 (100000) random strings up to length 40 over 19 characters incl. 4-byte code points; every prefix of 300 (2000) written documents. Offsets of all yielded slices compared. Non-trivial = at least one link parsed / quoted value.',
         explanation='slices, order, fusedness, termination and cow = string proved for every input',
+        trusted=['the low-level parser model Model/LinkLow.lean (byte offsets from pointer differences, &str slicing that panics off a character boundary) is a hand transcription of LinkFormatParser::next / LinkAttributeParser::next; it is proved equal to the high-level model for every input (hence never panics) and run next to it on every LF parse line; one write!("{}", x) is one sink call (core::fmt, not derived from the crate)'],
     ),
     'C18': dict(
         lean='CoapLite.Props.C18', domains=['LF'], line_filter=r'LF write',
